@@ -233,6 +233,16 @@ def check_config(ctx, F, tag, cfg):
         c08.check_width_fields(rl, F, tag)
         c08.ledger(rl, F, tag)
     its = iterator_methods(F)
+    # the counting rules read next / next_back / nth / nth_back / size_hint; an iterator that overrides another provided method
+    # (last, count, fold, ..) answers through code they do not read -- whether it still yields the reference sequence "and keeps
+    # returning None once exhausted" through that method is not established (undecided; only for overrides the pinned tree lacks)
+    import inline as _inl
+    base_ = _inl.baseline() or set()
+    for ty_, meths_ in sorted(its.items(), key=lambda kv: str(kv[0])):
+        for mn, md in sorted(meths_.items()):
+            if mn not in ("next", "next_back", "nth", "nth_back", "size_hint") and md not in base_:
+                ctx.ob("C10.R1.overridden-iterator-method-not-read", "%s::%s%s" % (ty_, mn, tag), loc(F.body(md).raw["span"]), None, "who-may-answer",
+                       "%s overrides Iterator::%s, which the counting rules do not read" % (str(ty_).split("::")[-1], mn), nontrivial=False)
     exact = [i for i in F.impls_of("std::iter::ExactSizeIterator") if not i["derived"]]
     ctx.count("exact-size-iterators" + tag, len(exact))
     for im in exact:
@@ -290,7 +300,8 @@ def check_config(ctx, F, tag, cfg):
                     if sp and sp[0][0] == adt and sp[0][1] in (npath[0], (lpath or [None])[0]):
                         if not (f.get("impl_self", "").startswith(ty)):
                             outside.append(b.name)
-        ctx.ob("C10.R1.counters-private", ty + tag, loc(im["span"]), not outside, "who-may-store", "stores to the counters outside the iterator's own impls: %s" % sorted(set(outside)), nontrivial=False)
+        import inline
+        ctx.ob("C10.R1.counters-private", ty + tag, loc(im["span"]), (not outside) if not inline.only_new(outside) else None, "who-may-store", "stores to the counters outside the iterator's own impls: %s" % sorted(set(outside)), nontrivial=False)
     ctx.floor("exact-size-iterators" + tag, FLOOR_EXACT)
     ctx.floor("iterator-methods-analysed" + tag, 20)
 
